@@ -5,7 +5,8 @@
 (* For an entry point e with a corpus of valid inputs, the inputs are      *)
 (*   valid            the corpus item itself                               *)
 (*   truncate(k)      every proper prefix                                  *)
-(*   substitute(p,v)  every position p; v in 7 values (quick; krb5.conf:   *)
+(*   substitute(p,v)  every position p; v in 9 values (quick: five fixed,  *)
+(*                    two bit flips, the value's neighbours; krb5.conf:     *)
 (*                    the 19 characters with a meaning) or all 256          *)
 (*   setlen(f,v)      DER formats: every length octet found by walking the *)
 (*                    TLV structure, replaced by 12 encodings (0, 1, +-1,  *)
